@@ -234,6 +234,25 @@ def add_cases(rng, T):
             yield 'add_disc', list(disc_on(rng, T, i1)) + near(disc_on(rng, T, i1)), ['near-breakpoints']
 
 
+def avg_mul_cases(rng, T, n):
+    """average_profile of 1..4 functions on common end points; mul_scalar of the three classes"""
+    inner = list(subsets(range(1, T)))
+    for _ in range(n):
+        k = rng.choice([1, 2, 2, 3, 3, 4])
+        fc, fl_ = [], []
+        for _ in range(k):
+            fc += list(pwc_on(rng, T, rng.choice(inner)))
+            fl_ += list(pwl_on(rng, T, rng.choice(inner)))
+        tg = ['avg-%d' % k]
+        yield 'avg_pwc', fc, tg
+        yield 'avg_pwl', fl_, tg
+        c = [rng.choice([Fr(0), Fr(1), Fr(-1), Fr(1, 2), Fr(3), Fr(1, 3)])]
+        i1 = rng.choice(inner)
+        yield 'mul_pwc', list(pwc_on(rng, T, i1)) + [c], ['mul']
+        yield 'mul_pwl', list(pwl_on(rng, T, i1)) + [c], ['mul']
+        yield 'mul_disc', list(disc_on(rng, T, i1)) + [c], ['mul']
+
+
 def half_points(T):
     return [Fr(k, 2) for k in range(2 * T + 1)]
 
@@ -281,6 +300,11 @@ def func_cases(rng, T, per_func_intervals=None):
         # out-of-support intervals (Pwc raises ValueError)
         yield 'pwc_integral', fc + [[Fr(-1), Fr(1)]], ['iv-outside']
         yield 'pwc_integral', fc + [[Fr(1), Fr(T + 1)]], ['iv-outside']
+        yield 'pwc_integral', fc + [[Fr(3), Fr(1)]], ['iv-reversed']
+        yield 'pwc_avrg', fc + [[Fr(3), Fr(1)]], ['iv-reversed']
+        yield 'pwl_integral', fl_ + [[Fr(-1), Fr(1)]], ['iv-outside']
+        yield 'disc_integral', fd + [[Fr(-1), Fr(1)]], ['iv-outside']
+        yield 'disc_integral', fd + [[Fr(1), Fr(T + 1)]], ['iv-outside']
 
 
 # ---------------------------------------------------------------- API level
